@@ -1,9 +1,92 @@
 import UF.Driver.Decode
-/- Ops of work group B (see notes/AGENT_GUIDE.md). Return `none` for ops of other groups. -/
+import UF.Model.Engine
+import UF.Spec.Engine
+import UF.Spec.DnsEngine
+import UF.Spec.Cosmetic
+/- Ops of work group B (C01, C02, C15). Return `none` for ops of other groups. -/
 namespace UF.Ops
+open UF
+
+/-- Sorted, de-duplicated list of byte strings, rendered as one token. -/
+def outTextSet (ts : List Bytes) : String :=
+  "(" ++ ",".intercalate ((Bytes.sortB ts.eraseDups).map outBytes) ++ ")"
+
+def decIdxNetRule (w : W) : Option (NetRule × Idx) :=
+  match w with
+  | .l [i, r] => do pure (← decNetRule r, ← i.int?)
+  | _ => none
+
+def retrieveFrom {α} (tbl : List (α × Idx)) (idx : Idx) : Option α :=
+  (tbl.find? (·.2 == idx)).map (·.1)
+
+/-- `c01.matchall ((idx R)…) Q psl addrs (pat…)`: model = the three-table engine built by folding
+    `addRule` over the rules in storage order; spec = linear scan. Answers: sorted text sets. -/
+def opC01 (args : List W) : String :=
+  match args with
+  | [.l rs, q, psl, addrs, pats] =>
+    match rs.mapM decIdxNetRule, decRequest q, decPslTable psl, decAddrTable addrs, decPatTable pats with
+    | some L, some q, some psl, some addrs, some pats =>
+      let ext := mkExt psl addrs pats
+      let e := Engine.build djb2 Facts.shortcutLength L
+      let model := e.matchAll djb2 Facts.shortcutLength (retrieveFrom L) ext q
+      let spec := specMatchAll ext (L.map (·.1)) q
+      outTextSet (model.map (·.text)) ++ " " ++ outTextSet (spec.map (·.text))
+    | _, _, _, _, _ => "bad-decode"
+  | _ => "bad-arity"
+
+def decIdxRule (w : W) : Option (Rule × Idx) :=
+  match w with
+  | .l [i, r] => do pure (← decRule r, ← i.int?)
+  | _ => none
+
+def outHostSet (hs : List HostRule) : String :=
+  outTextSet (hs.map fun h => (toString h.listID).toUTF8.toList ++ lit ":" ++ h.text)
+
+def outDns (r : DnsResult) : String :=
+  (fun a => if a == "()|T|()|()|F" then "()" else a) <| outTextSet (r.networkRules.map (·.text)) ++ "|" ++ outBool r.networkRule.isNone ++ "|" ++
+  outHostSet r.v4 ++ "|" ++ outHostSet r.v6 ++ "|" ++ outBool r.matched
+
+/-- `c02.dns ((idx rule)…) Q psl addrs (pat…) basic`: `basic` is Go's choice of `GetDNSBasicRule`
+    (`_` = nil, else the rule text); it must be one of the candidates, otherwise the answer is flagged. -/
+def opC02 (args : List W) : String :=
+  match args with
+  | [.l rs, q, psl, addrs, pats, b] =>
+    match rs.mapM decIdxRule, decRequest q, decPslTable psl, decAddrTable addrs, decPatTable pats with
+    | some L, some q, some psl, some addrs, some pats =>
+      let goBasic : Option Bytes := if b.isNone then none else b.bytes?
+      let basic : List NetRule → Option NetRule := fun nrs =>
+        match goBasic with
+        | none => none
+        | some t => nrs.find? (·.text == t)
+      let ext := mkExt psl addrs pats
+      let d := DnsEngine.build djb2 Facts.shortcutLength L
+      let model := d.matchRequest djb2 Facts.shortcutLength (retrieveFrom L) ext basic q
+      let spec := specDns ext basic (L.map (·.1)) q
+      let flag (r : DnsResult) := if goBasic.isSome && r.networkRule.isNone && !q.hostname.isEmpty then "basic-not-a-candidate:" else ""
+      flag model ++ outDns model ++ " " ++ flag spec ++ outDns spec
+    | _, _, _, _, _ => "bad-decode"
+  | _ => "bad-arity"
+
+def outSel (p : List Bytes × List Bytes) : String :=
+  (fun a => if a == "()|()" then "()" else a) <| outTextSet p.1 ++ "|" ++ outTextSet p.2
+
+/-- `c15.cosm (K…) host css js generic psl`. -/
+def opC15 (args : List W) : String :=
+  match args with
+  | [.l rs, host, css, js, gen, psl] =>
+    match rs.mapM decCosRule, host.bytes?, css.bool?, js.bool?, gen.bool?, decPslTable psl with
+    | some L, some host, some css, some js, some gen, some psl =>
+      let ext := mkExt psl [] []
+      let t := CosTable.build L
+      outSel (t.matchHost ext host css js gen) ++ " " ++ outSel (specCosmetic ext L host css js gen)
+    | _, _, _, _, _, _ => "bad-decode"
+  | _ => "bad-arity"
 
 def dispatchB (op : String) (args : List W) : Option String :=
-  match op, args with
-  | _, _ => none
+  match op with
+  | "c01.matchall" => some (opC01 args)
+  | "c02.dns" => some (opC02 args)
+  | "c15.cosm" => some (opC15 args)
+  | _ => none
 
 end UF.Ops
